@@ -248,6 +248,8 @@ def replay_graph(chk, cfgname, max_paths):
                     raise tlc.MachineryError("cannot identify acting thread on edge %s" % label)
                 t = fx.threads[actor[0]]
                 try:
+                    if t.done:
+                        raise KeyError("thread %s already finished" % t.name)
                     if label.startswith("Reenter"):
                         m = s0["pool"][0]
                         fx.injected.add(m)
@@ -260,25 +262,30 @@ def replay_graph(chk, cfgname, max_paths):
                     ok = False
                     chk.drift.append("path %d step %s: %r" % (pi, label, ex))
                     break
-                mism = compare(fx, s1)
+                mism = compare(fx, s1) if ok else None
                 chk.evaluated()
                 if mism:
+                    # drift: keep following the schedule (thread order) of the path, judged by the oracle only
                     ok = False
                     drift += 1
                     chk.drift.append("path %d after %s by %s: %s" % (pi, label, actor[0], mism))
-                    break
-                covered.add((cur, label, dst))
-                chk.distinct(("edge", cur, label, dst))
+                if ok:
+                    covered.add((cur, label, dst))
+                    chk.distinct(("edge", cur, label, dst))
                 cur = dst
             if ok:
                 chk.validated()
+            # every schedule prefix is completed (no further preemption) and judged as a whole execution
+            dead = None
+            try:
+                fx.sched.run(sim.FirstPolicy(), max_steps=5000)
+            except (sim.Deadlock, sim.StepLimit) as ex:
+                dead = str(ex)
             if pi < 2:
                 chk.sample({"kind": "TLC path replayed into the code", "config": cfgname,
                             "steps": [lab for lab, _ in path[1:]][:60]})
             # the direct oracle also judges what the replay produced so far
-            for key, msg in fx.oracle():
-                if key in ("stranded",) and not ok:
-                    continue
+            for key, msg in fx.oracle(dead):
                 chk.violation("replay:" + key, "C12 %s (TLC path replay)" % msg,
                               {"mode": "tlc-path", "config": cfgname, "labels": [lab for lab, _ in path[1:]]})
         finally:
